@@ -77,6 +77,13 @@ AllNil  == \A f \in NonNil : outs[f] = "nil"
 AllLeft == \A f \in NonNil : outs[f] # ""
 
 -----------------------------------------------------------------------------
+\* The controller saw one goroutine of the call take 50 library steps in a row without any event (no
+\* function entered or left, nothing returned): the call loops instead of returning.  I3: a violation
+\* when something it must return for has happened (an error, the cancellation, every function done).
+PSpin ==
+    /\ bad' = bad \cup (IF phase = "called" /\ (cancelled \/ RealErrs # {} \/ AllLeft) THEN {"Stuck:spin"} ELSE {})
+    /\ UNCHANGED <<kinds, phase, calls, outs, cancelled>>
+
 PCall(ks) ==
     /\ kinds' = ks
     /\ phase' = "called"
@@ -149,6 +156,15 @@ QuietOK(blocked) == QuietBad(blocked) = {}
 
 PQuiet(blocked) ==
     /\ bad' = bad \cup QuietBad(blocked)
+    /\ UNCHANGED <<kinds, phase, calls, outs, cancelled>>
+
+\* After everything had returned the harness called CallConcurrently once more with the caller's very
+\* same argument slice (functions that return nil at once); cnt[f] = invocations of argument f.
+\* I4 for that call: every non-nil function exactly once.
+PReuse(cnt) ==
+    /\ bad' = bad \cup (IF \E f \in NonNil : f <= Len(cnt) /\ cnt[f] > 1 THEN {"Twice"} ELSE {})
+                   \cup (IF \E f \in NonNil : f <= Len(cnt) /\ cnt[f] = 0 THEN {"NotRun"} ELSE {})
+                   \cup (IF \E f \in Args \ NonNil : f <= Len(cnt) /\ cnt[f] # 0 THEN {"Harness"} ELSE {})
     /\ UNCHANGED <<kinds, phase, calls, outs, cancelled>>
 
 PFinal ==
